@@ -10,7 +10,7 @@ def run(ctx):
     n = 40 if ctx.thorough else 6
     st = subjects.run(ctx, "C12", subjects.STACK + ["iter2", "iter3", "iter5"], ["rwdi", "dbg"], n, 200 if ctx.thorough else 120)
     # block sources moved / move-assigned / swapped while blocks are outstanding (static storage, reserved virtual memory)
-    st.update(subjects.run(ctx, "C12", ["lifo-static", "lifo-virtual"], ["rwdi", "dbg"], n, 60))
+    st.update(subjects.run(ctx, "C12", ["lifo-static", "lifo-virtual"] + subjects.ARENA, ["rwdi", "dbg"], n, 60))
     st.update(subjects.run(ctx, "C12", subjects.POOL + subjects.COLL, ["rwdi", "dbg", "rel"] if ctx.thorough else ["rwdi", "dbg"], max(3, n // 2), 120))
     moves = sum(v.get("moves", 0) for v in st.values())
     ctx.coverage["moves_executed"] = moves
